@@ -182,4 +182,76 @@ def allSortedKV : List (Str × Json) → Bool
   | (_, v) :: r => v.keysSorted && allSortedKV r
 end
 
+/-! ## reading back (reference side of the SARIF theorems) -/
+
+def hexVal (c : Char) : Option Nat :=
+  if '0' ≤ c ∧ c ≤ '9' then some (c.toNat - 48)
+  else if 'a' ≤ c ∧ c ≤ 'f' then some (c.toNat - 87)
+  else if 'A' ≤ c ∧ c ≤ 'F' then some (c.toNat - 55)
+  else none
+
+/-- the two-character escapes of RFC 8259 §7 -/
+def unescape1 (e : Char) : Option Char :=
+  if e = '"' then some '"' else if e = '\\' then some '\\' else if e = '/' then some '/'
+  else if e = 'b' then some (Char.ofNat 8) else if e = 'f' then some (Char.ofNat 12) else if e = 'n' then some '\n'
+  else if e = 'r' then some '\r' else if e = 't' then some '\t' else none
+
+/-- a strict JSON string reader over bytes (input: what follows the opening quote): no raw control characters,
+    only the RFC 8259 escapes; `\uXXXX` is accepted for code points below 256 (all picojson writes).
+    Returns the decoded string and the input behind the closing quote. -/
+def jsonStrDecode : Str → Option (Str × Str)
+  | [] => none
+  | '"' :: r => some ([], r)
+  | '\\' :: 'u' :: a :: b :: c :: d :: r =>
+    match hexVal a, hexVal b, hexVal c, hexVal d, jsonStrDecode r with
+    | some x, some y, some z, some w, some (s, rest) =>
+      let code := ((x * 16 + y) * 16 + z) * 16 + w
+      if code < 256 then some (Char.ofNat code :: s, rest) else none
+    | _, _, _, _, _ => none
+  | '\\' :: e :: r =>
+    match unescape1 e, jsonStrDecode r with
+    | some ch, some (s, rest) => some (ch :: s, rest)
+    | _, _ => none
+  | c :: r =>
+    if c.toNat < 0x20 then none
+    else match jsonStrDecode r with
+      | some (s, rest) => some (c :: s, rest)
+      | none => none
+
+/-- member of an object -/
+def Json.get (k : String) : Json → Option Json
+  | .obj kvs => kvs.lookup k.toList
+  | _ => none
+
+def Json.strVal : Json → Option Str
+  | .str s => some s
+  | _ => none
+
+/-- `ruleId`, message text, level and (uri, startLine, startColumn) of the locations of one SARIF result -/
+def readLoc (j : Json) : Option (Str × Int × Int) :=
+  match (j.get "physicalLocation").bind (fun p => (p.get "artifactLocation").bind (fun a => (a.get "uri").bind Json.strVal)),
+        (j.get "physicalLocation").bind (fun p => (p.get "region").bind (fun r => r.get "startLine")),
+        (j.get "physicalLocation").bind (fun p => (p.get "region").bind (fun r => r.get "startColumn")) with
+  | some u, some (.int l), some (.int c) => some (u, l, c)
+  | _, _, _ => none
+
+structure SarifResult where
+  ruleId : Str
+  text : Str
+  level : Str
+  locs : List (Str × Int × Int)
+  deriving DecidableEq, Repr
+
+def readResult (j : Json) : Option SarifResult :=
+  match (j.get "ruleId").bind Json.strVal, (j.get "message").bind (fun m => (m.get "text").bind Json.strVal),
+        (j.get "level").bind Json.strVal, j.get "locations" with
+  | some id, some t, some lv, some (.arr ls) =>
+    if (ls.map readLoc).all Option.isSome then some ⟨id, t, lv, ls.filterMap readLoc⟩ else none
+  | _, _, _, _ => none
+
+/-- what a SARIF result is meant to say about a finding -/
+def expectedResult (f : Finding) : SarifResult :=
+  { ruleId := f.id, text := f.shortMsg, level := (sarifSeverity f).toList,
+    locs := f.stack.map (fun l => (l.file, (if l.line < 1 then 1 else l.line), (if l.column < 1 then (1 : Int) else (l.column : Int)))) }
+
 end Cppcheck.Sarif
